@@ -22,6 +22,22 @@ CHECKS = {
    text="Misuse faults (bad flags / already processing / already completed) injected at arbitrary manager states; byte images of manager and all other contexts compared before/after, API-defined state of the rejected context compared, and every later valid call through isal_* must return 0 and every job must still verify.",
    note="The error field of the rejected context is the reported result and is exempt from the image comparison.",
    tech=TECH + ": HashMgrSim with misuse-fault ops"),
+ "C05": dict(cat="exploration", sec="5 StreamSim",
+   text="Seeded search over stream lengths, fragmentations (carry x fragment class incl. empty, exact fill, multi-block crossing), restarts, interleaved clients and all five families of mh_sha1 and mh_sha256; finalize digest compared with the multi-hash definition computed by an independent model; one >= 2^31-byte update per quick run.",
+   note="The model follows the property text; the byte order of the final hash's input (native little-endian words in [word][segment] layout) is taken from the pinned implementation. Streams mostly <= 64 KiB.",
+   tech=TECH + ": StreamSim (fragmenting transport), reference-model oracle at finalize"),
+ "C07": dict(cat="exploration", sec="5 StreamSim",
+   text="AES-GCM init/update*/finalize under arbitrary update splits (every carried-partial x fragment-residue cell reachable), both key sizes, four families, enc/dec, in/out of place, _nt under its documented rule, contexts sharing key data, mid-message restarts; output bytes and tag compared with the one-shot call of the same family.",
+   note="The one-shot entry point of the same family is the oracle (its own correctness is C02, not claimed). Key data produced by the same family's precompute.",
+   tech=TECH + ": StreamSim, one-shot call as reference model"),
+ "C09": dict(cat="exploration", sec="5 StreamSim",
+   text="Rolling-hash clients with window 1..48, frequent and rare masks, mask_gen output, three scan implementations; every run call's (match, offset) and state hash compared with the non-incremental definition over a golden copy of the table; twin clients on one stream under different splits; one >= 2^31-byte run per implementation.",
+   note="Golden table frozen in /verif at the pinned commit defines the hash; streams <= 64 KiB apart from the aliased 2 GiB window.",
+   tech=TECH + ": StreamSim, executable reference model per call"),
+ "C10": dict(cat="exploration", sec="5 StreamSim",
+   text="As C05 for mh_sha1_murmur3_x64_128 with a 64-bit seed per stream: SHA part compared with the multi-hash model, 128-bit part with a MurmurHash3_x64_128 reference (h1=h2=seed), for every fragmentation and family sampled.",
+   note="MurmurHash3 reference checked against published vectors at start-up.",
+   tech=TECH + ": StreamSim, two reference models at finalize"),
 }
 
 NA = {
